@@ -79,26 +79,42 @@ def _gate_class(name):
     return getattr(ops, _INV_CLASS1[name])
 
 
-def _mk_circuit(cj, with_noise=True):
-    """real CircuitDAG from the JSON description; with_noise=False builds the same gates with default (no) noise"""
+def _mk_circuit(cj, with_noise=True, handles=None):
+    """real CircuitDAG from the JSON description; with_noise=False builds the same gates with default (no) noise;
+    handles: a list that receives (noise spec, noise model object) for every noise object created"""
     import graphiq.circuit.ops as ops
     from graphiq.circuit.circuit_dag import CircuitDAG
+
+    def mkn(spec):
+        obj = _mk_noise(spec)
+        if handles is not None:
+            handles.append((spec, obj))
+        return obj
 
     c = CircuitDAG(n_emitter=cj["ne"], n_photon=cj["np"], n_classical=cj.get("nc", 0))
     for op in cj["ops"]:
         k = op[0]
         if k == "g":
             _, name, rt, r, ns = op
-            kw = {"noise": _mk_noise(ns)} if with_noise else {}
+            kw = {"noise": mkn(ns)} if with_noise else {}
             c.add(_gate_class(name)(register=r, reg_type=rt, **kw))
         elif k == "w":
             _, names, rt, r, nss = op
-            kw = {"noise": [_mk_noise(s) for s in nss]} if with_noise else {}
+            kw = {"noise": [mkn(s) for s in nss]} if with_noise else {}
             c.add(ops.OneQubitGateWrapper([_gate_class(g) for g in names], register=r, reg_type=rt, **kw))
         elif k in ("cx", "cz"):
             _, ct, cq, tt, tq, nss = op
-            kw = {"noise": [_mk_noise(nss[0]), _mk_noise(nss[1])]} if with_noise else {}
+            kw = {"noise": [mkn(nss[0]), mkn(nss[1])]} if with_noise else {}
             cls = ops.CNOT if k == "cx" else ops.CZ
+            c.add(cls(control=cq, control_type=ct, target=tq, target_type=tt, **kw))
+        elif k == "w1":  # wrapper built with ONE noise object (not a list): the noise sits before / after the whole body
+            _, names, rt, r, ns = op
+            kw = {"noise": mkn(ns)} if with_noise else {}
+            c.add(ops.OneQubitGateWrapper([_gate_class(g) for g in names], register=r, reg_type=rt, **kw))
+        elif k in ("cx1", "cz1"):  # controlled gate built with ONE noise object: it acts on control and on target
+            _, ct, cq, tt, tq, ns = op
+            kw = {"noise": mkn(ns)} if with_noise else {}
+            cls = ops.CNOT if k == "cx1" else ops.CZ
             c.add(cls(control=cq, control_type=ct, target=tq, target_type=tt, **kw))
         elif k in ("mcr", "ccx", "ccz"):
             _, ct, cq, tt, tq, creg = op
@@ -158,8 +174,30 @@ def _n(cj):
     return cj["np"] + cj["ne"]
 
 
-def _noise_slots(cj):
+def _canon(cj):
+    """the same noisy circuit with the single-noise-object construction variants written in the list form the oracle reads:
+    wrapper [g1..gk] with one noise object N  =  N after the whole body (listed [I, g1..gk], noise on I) or before it
+    (listed [g1..gk, I]);  controlled gate with one noise object N  =  [N, N]"""
+    out = []
     for op in cj["ops"]:
+        if op[0] == "w1":
+            _, names, rt, r, ns = op
+            k = len(names)
+            if ns[0] == "none":
+                out.append(["w", list(names), rt, r, [["none"]] * k])
+            elif rn.is_after(ns):
+                out.append(["w", ["I"] + list(names), rt, r, [ns] + [["none"]] * k])
+            else:
+                out.append(["w", list(names) + ["I"], rt, r, [["none"]] * k + [ns]])
+        elif op[0] in ("cx1", "cz1"):
+            out.append([op[0][:2]] + list(op[1:5]) + [[op[5], op[5]]])
+        else:
+            out.append(op)
+    return dict(cj, ops=out)
+
+
+def _noise_slots(cj):
+    for op in _canon(cj)["ops"]:
         if op[0] == "g":
             yield op[4]
         elif op[0] == "w":
@@ -314,7 +352,7 @@ def _oracle(inp):
     rho = _dm_of(st)
     if isinstance(rho, str):
         return rho
-    want, surv = rn.run_noisy(cj["np"], cj["ne"], cj["ops"])
+    want, surv = rn.run_noisy(cj["np"], cj["ne"], _canon(cj)["ops"])
     if not np.allclose(rho, want, atol=TOL, rtol=0):
         return (f"result differs from gate/noise sequence with each noise placed as its 'After gate' flag says "
                 f"(max dev {np.max(np.abs(rho - want)):.3e}, trace {np.real(np.trace(rho)):.6f} vs {surv:.6f})")
@@ -364,6 +402,243 @@ S.item("compile.dm.placement_oracle.split_placement", site="graphiq.backends.com
        bound="fixed sample, seed-independent (touches known finding C06-F2): 18 evenly spaced structured circuits with a controlled "
              "gate whose control noise and target noise have different placements, both non-trivial",
        clause="noise models placed before or after a gate (control before / target after and vice versa)")(_oracle)
+
+
+# ------------------------------------------------------------------ repeated use (one circuit object / one compiler instance) and argument frames
+def _noise_objects(c):
+    """[(op, noise object or list, [(noise model, repr of its parameters)])] of the real circuit's operations"""
+    out = []
+    for op in c.sequence():
+        lst = list(op.noise) if isinstance(op.noise, list) else [op.noise]
+        out.append((op, op.noise, [(x, repr(sorted(getattr(x, "noise_parameters", {}).items(), key=str))) for x in lst]))
+    return out
+
+
+def _noise_frame(before, where):
+    for op, nz, lst in before:
+        if op.noise is not nz:
+            return f"{where}: {type(op).__name__}.noise is a different object"
+        now = list(op.noise) if isinstance(op.noise, list) else [op.noise]
+        if len(now) != len(lst) or any(a is not b for a, (b, _) in zip(now, lst)):
+            return f"{where}: {type(op).__name__}.noise list contents changed"
+        for x, rep in lst:
+            if repr(sorted(getattr(x, "noise_parameters", {}).items(), key=str)) != rep:
+                return f"{where}: parameters of a {type(x).__name__} changed: {rep} -> {sorted(x.noise_parameters.items(), key=str)}"
+    return None
+
+
+def _against_oracle(state, backend, n, want, where, exact_pure=False):
+    """the compiled state of either backend equals the oracle matrix `want` (weight = trace included)"""
+    if backend == "dm":
+        rho = _dm_of(state)
+        if isinstance(rho, str):
+            return f"{where}: {rho}"
+        if rho.shape != want.shape or not np.allclose(rho, want, atol=1e-12 if exact_pure else TOL, rtol=0):
+            return (f"{where}: density matrix differs from the gate/noise sequence (max dev {np.max(np.abs(rho - want)):.3e}, "
+                    f"trace {np.real(np.trace(rho)):.6f} vs {np.real(np.trace(want)):.6f})")
+        if rn.min_eig(rho) < -TOL:
+            return f"{where}: density matrix not PSD (min eigenvalue {rn.min_eig(rho):.3e})"
+        return None
+    mix = _mixture_of(state, n)
+    if isinstance(mix, str):
+        return f"{where}: {mix}"
+    if any(p < -1e-15 for p, _ in mix):
+        return f"{where}: negative branch weight"
+    w = sum(p for p, _ in mix)
+    if abs(w - float(np.real(np.trace(want)))) > TOL:
+        return f"{where}: stabilizer mixture weight {w!r} != product of survival probabilities {float(np.real(np.trace(want)))!r}"
+    rs = f_stab.mixture_dm(mix) if mix else np.zeros_like(want)
+    if not np.allclose(rs, want, atol=TOL, rtol=0):
+        return f"{where}: stabilizer mixture differs from the gate/noise sequence (max dev {np.max(np.abs(rs - want)):.3e})"
+    return None
+
+
+def _new_compilers():
+    from graphiq.backends.density_matrix.compiler import DensityMatrixCompiler
+    from graphiq.backends.stabilizer.compiler import StabilizerCompiler
+
+    out = {"dm": DensityMatrixCompiler(), "s": StabilizerCompiler()}
+    for c in out.values():
+        c.measurement_determinism = 1
+    return out
+
+
+def _compile_with(comp, circuit, noise_on):
+    import contextlib
+    import io
+
+    comp.noise_simulation = noise_on
+    with contextlib.redirect_stdout(io.StringIO()):
+        return comp.compile(circuit)
+
+
+_PLANS = [["dm", "s", "dm"], ["s", "dm", "s"], ["dm", "dm_off", "dm", "s_off", "s"], ["s", "s", "dm_off", "dm", "dm"], ["dm_off", "s_off", "dm", "s", "dm_off"]]
+
+
+def _same_circuit_case(inp):
+    """inp = [circuit JSON, plan index]: ONE noisy circuit object is compiled several times, alternating the backends and
+    switching noise simulation off and on, by ONE compiler instance per backend; every result equals the oracle (noise on: the
+    gate/noise sequence; noise off: the noiseless state), and the circuit's noise objects are the same objects with the same
+    parameters after every compilation; finally the strengths are changed on the noise objects and both backends are asked again"""
+    cj, pk = inp
+    n = _n(cj)
+    handles = []
+    c = _mk_circuit(cj, handles=handles)
+    ops_c = _canon(cj)["ops"]
+    want_on, _ = rn.run_noisy(cj["np"], cj["ne"], ops_c)
+    want_off, _ = rn.run_noisy(cj["np"], cj["ne"], ops_c, noise_on=False)
+    before = _noise_objects(c)
+    comps = _new_compilers()
+    for k, step in enumerate(_PLANS[pk]):
+        backend, on = step.split("_")[0], not step.endswith("_off")
+        where = f"compilation #{k} ({step}) of the same circuit object in plan {_PLANS[pk]}"
+        st = _compile_with(comps[backend], c, on)
+        m = _against_oracle(st, backend, n, want_on if on else want_off, where, exact_pure=not on)
+        if m:
+            return m
+        m = _noise_frame(before, "after " + where)
+        if m:
+            return m
+    # query - edit - query: the strengths of the attached noise models are changed on the objects themselves (a strength sweep);
+    # the next compilation of the same circuit object is the noisy state for the strengths the models hold NOW
+    for spec, obj in handles:
+        new = _restrength_spec(spec)
+        if spec[0] == "dep":
+            obj.noise_parameters["Depolarizing probability"] = new[1]
+        elif spec[0] == "loss":
+            obj.noise_parameters["loss rate"] = new[1]
+    cj2 = _restrength(cj)
+    want2, _ = rn.run_noisy(cj["np"], cj["ne"], _canon(cj2)["ops"])
+    for backend in ("dm", "s"):
+        m = _against_oracle(_compile_with(comps[backend], c, True), backend, n, want2,
+                            f"after changing the strengths of the attached noise models ({backend}, instance used before)")
+        if m:
+            return m
+    return None
+
+
+def _restrength_spec(ns):
+    return [ns[0], round(0.5 * ns[1] + (0.2 if ns[0] == "dep" else 0.1), 6), ns[2]] if ns[0] in ("dep", "loss") else ns
+
+
+def _restrength(cj):
+    out = []
+    for op in cj["ops"]:
+        k = op[0]
+        if k in ("g", "w1", "cx1", "cz1"):
+            out.append(op[:-1] + [_restrength_spec(op[-1])])
+        elif k in ("w", "cx", "cz"):
+            out.append(op[:-1] + [[_restrength_spec(x) for x in op[-1]]])
+        else:
+            out.append(op)
+    return dict(cj, ops=out)
+
+
+def _same_compiler_case(inp):
+    """inp = [circuit JSON, ...]: ONE compiler instance per backend compiles the noisy circuits one after the other (different
+    register splits with equal totals, different sizes); each result equals the oracle of the circuit compiled"""
+    comps = _new_compilers()
+    for k, cj in enumerate(inp):
+        n = _n(cj)
+        want, _ = rn.run_noisy(cj["np"], cj["ne"], _canon(cj)["ops"])
+        for backend in ("dm", "s"):
+            where = f"circuit #{k} ({cj['ne']}e,{cj['np']}p) of the sequence, {backend} instance used for all of them"
+            m = _against_oracle(_compile_with(comps[backend], _mk_circuit(cj), True), backend, n, want, where)
+            if m:
+                return m
+    return None
+
+
+def _assign_twice_case(inp):
+    """inp = [noise-free circuit JSON, map 1, map 2]: assign_noise(map 1) twice with the same map object, then assign_noise(map 2)
+    on the same original; every derived circuit realises its map (oracle), also when compiled again after the later
+    derivations; the original still compiles (noise simulation on) to the noiseless state; the noise models of map 1 are
+    unchanged"""
+    cj, mj1, mj2 = inp
+    n = _n(cj)
+    base = _mk_circuit(cj, with_noise=False)
+    m1, m2 = _mk_map(mj1), _mk_map(mj2)
+
+    def params(m):
+        return [[key, name, [(id(x), repr(sorted(x.noise_parameters.items(), key=str))) for x in (v if isinstance(v, list) else [v])]]
+                for key, d in sorted(m.items()) for name, v in sorted(d.items())]
+
+    p1 = params(m1)
+    want1, _ = rn.run_noisy(cj["np"], cj["ne"], _apply_map(cj, mj1)["ops"])
+    want2, _ = rn.run_noisy(cj["np"], cj["ne"], _apply_map(cj, mj2)["ops"])
+    want0, _ = rn.run_noisy(cj["np"], cj["ne"], _apply_map(cj, {})["ops"], noise_on=False)
+    a = base.assign_noise(m1)
+    b = base.assign_noise(m1)
+    comps = _new_compilers()
+    for label, circ, want in (("first assign_noise(map 1)", a, want1), ("second assign_noise(map 1)", b, want1)):
+        for backend in ("dm", "s"):
+            m = _against_oracle(_compile_with(comps[backend], circ, True), backend, n, want, f"{label}, {backend}")
+            if m:
+                return m
+    c2 = base.assign_noise(m2)
+    for label, circ, want in (("assign_noise(map 2) after two assignments of map 1", c2, want2), ("first noisy copy, compiled again after the later assignments", a, want1)):
+        for backend in ("dm", "s"):
+            m = _against_oracle(_compile_with(comps[backend], circ, True), backend, n, want, f"{label}, {backend}")
+            if m:
+                return m
+    for backend in ("dm", "s"):
+        m = _against_oracle(_compile_with(comps[backend], base, True), backend, n, want0, f"the noise-free original after three assign_noise calls, {backend}, noise simulation on", exact_pure=True)
+        if m:
+            return m
+    if params(m1) != p1:
+        return f"assign_noise / compile changed the caller's noise map: {p1} -> {params(m1)}"
+    return None
+
+
+def _one_map_case(inp):
+    """inp = [[noise-free circuit JSON, ...], map]: ONE noise map object (the same noise model objects) is assigned to several
+    circuits of different sizes / register splits, as a solver does with its noise model mapping; every noisy circuit realises
+    the map on both backends, compiled in the order of derivation and once more in reverse order"""
+    cjs, mj = inp
+    m = _mk_map(mj)
+    comps = _new_compilers()
+    noisy = [(cj, _mk_circuit(cj, with_noise=False).assign_noise(m)) for cj in cjs]
+    for rnd, lst in (("first round", noisy), ("second round, reverse order", noisy[::-1])):
+        for cj, circ in lst:
+            want, _ = rn.run_noisy(cj["np"], cj["ne"], _apply_map(cj, mj)["ops"])
+            for backend in ("dm", "s"):
+                r = _against_oracle(_compile_with(comps[backend], circ, True), backend, _n(cj), want,
+                                    f"{rnd}, circuit ({cj['ne']}e,{cj['np']}p) of {[(c['ne'], c['np']) for c in cjs]} sharing one noise map, {backend}")
+                if r:
+                    return r
+    return None
+
+
+_REUSE_DOM = ("unitary circuits n<=4 with Depolarizing / PhotonLoss / PauliError noise of any placement (split placement on controlled gates "
+              "included), wrappers built with a noise LIST or with ONE noise object, controlled gates built with a [control, target] "
+              "list or with ONE noise object: structured circuits on 1 emitter + 1 photon and seeded random circuits of 3-8 ops")
+S.item("compile.same_circuit_object.alternating_backends", site="graphiq.backends.compiler_base:CompilerBase.compile",
+       bound=_REUSE_DOM + "; 5 plans of 3-5 compilations of the same object (dm / stabilizer mixture, noise simulation on / off), one compiler instance per backend; "
+             "then every Dep / Loss strength p is changed to p/2 + 0.2 / p/2 + 0.1 on the attached objects and both backends compile again",
+       clause="for every circuit and noise assignment both results are the noisy state (same weight, same matrix); switched off reproduces the "
+              "noiseless state exactly - also for a circuit object that was compiled before; the attached noise models are not changed")(_same_circuit_case)
+S.item("compile.same_compiler_instance.sequence", site="graphiq.backends.compiler_base:CompilerBase.compile",
+       bound=_REUSE_DOM + "; sequences of 3-4 circuits whose consecutive members have equal totals and different emitter/photon splits with "
+             "probability 1/2 (+ the chains of all splits of 2, 3 and 4 qubits of a signature circuit), one compiler instance per backend for the whole sequence",
+       clause="for every circuit and noise assignment both results are the noisy state - also when the compiler object compiled other circuits before")(_same_compiler_case)
+S.item("compile.construction_variants.oracle", site="graphiq.circuit.ops:OneQubitGateWrapper.unwrap ; graphiq.backends.compiler_base:CompilerBase.compile",
+       bound=_REUSE_DOM + "; all structured circuits [H e0, CNOT e0->p0, X] with X a one-noise-object wrapper (3 bodies x e/p x 18 noise "
+             "specs) or a one-noise-object CNOT/CZ (2 directions x 18 specs); + 12 (thorough 36) random circuits on 5 qubits with >= 3 emitters; dm backend",
+       clause="noise models placed before or after a gate: a wrapper / controlled gate given ONE noise object carries it before / after the "
+              "whole wrapper / on control and target")(_oracle)
+S.item("compile.construction_variants.agreement", site="graphiq.backends.compiler_base:CompilerBase.compile",
+       bound="the same circuits as compile.construction_variants.oracle",
+       clause="the mixed-stabilizer result has the same total weight and the same fidelity with any pure stabilizer target")(_agreement)
+S.item("assign_noise.twice_same_original", site="graphiq.circuit.circuit_dag:CircuitDAG.assign_noise,_noisy_gates",
+       bound="seeded random unitary circuits n<=3 x two random maps -> {Dep, Loss, Pauli} (single model or [control, target] pair, uniform "
+             "placement per controlled gate); both backends",
+       clause="every map from (register type, gate type) to a noise model is realised - on every call; an assignment does not disturb earlier "
+              "noisy copies, the original or the map")(_assign_twice_case)
+S.item("assign_noise.one_map_many_circuits", site="graphiq.circuit.circuit_dag:CircuitDAG.assign_noise,_noisy_gates ; graphiq.noise.noise_models:*.apply",
+       bound="seeded: one random map -> {Dep, Loss, Pauli} assigned to 3 random unitary circuits of 1..4 qubits (consecutive ones: equal totals and "
+             "different splits with probability 1/2); all compiled by one compiler instance per backend, twice",
+       clause="every map from (register type, gate type) to a noise model is realised - for every circuit the same map (the same noise "
+              "model objects) is given to")(_one_map_case)
 
 
 # ------------------------------------------------------------------ switchability
@@ -1023,9 +1298,103 @@ def run(tier, seed):
         inf.append([cj, [int(k) for k in ks]])
     S.map("Infidelity.evaluate.noisy_states", inf)
 
+    # ---------------- repeated use / construction variants (H1, H2, H5)
+    all_specs = _DEP + _LOSS + _PAULI
+    prefix = [["g", "H", "e", 0, ["none"]], ["cx", "e", 0, "p", 0, [["none"], ["none"]]]]
+    var_struct = []
+    for ns in all_specs:
+        for rt in ("e", "p"):
+            for body in (["H"], ["H", "P"], ["X", "H", "PD"]):
+                var_struct.append({"np": 1, "ne": 1, "nc": 1, "ops": prefix + [["w1", body, rt, 0, ns]]})
+        for k in ("cx1", "cz1"):
+            for (ct, tt) in (("e", "p"), ("p", "e")):
+                var_struct.append({"np": 1, "ne": 1, "nc": 1, "ops": prefix + [[k, ct, 0, tt, 0, ns]]})
+    kinds4 = ["none", "dep", "loss", "pauli"]
+    nvar = 400 if thorough else 90
+    var_rand = [_variantize(rng, _rand_circuit(rng, *shapes[int(rng.integers(len(shapes)))], int(rng.integers(3, 9)), kinds4, split=bool(i % 4 == 0)))
+                for i in range(nvar)]
+    var_uniform = [c for c in var_rand if not _is_split(_canon(c))]
+    # a small sample above the n<=4 bound of the other items: 5 qubits, >= 3 emitters (dm oracle only; the mixture would be large)
+    var_five = [_variantize(rng, _rand_circuit(rng, 5 - ne5, ne5, int(rng.integers(4, 9)), kinds4, split=bool(i % 3 == 0)))
+                for i, ne5 in enumerate([3, 4, 3, 5, 3, 4] * (6 if thorough else 2))]
+    S.map("compile.construction_variants.oracle", var_struct + var_rand + var_five)
+    S.map("compile.construction_variants.agreement", var_struct + var_uniform[:: 2])
+    same = [[c, i % len(_PLANS)] for i, c in enumerate(var_struct[:: 3] + var_rand + _take(structured_split, 30) + _take(structured_pauli, 20) + _take(structured_dl, 30))]
+    S.map("compile.same_circuit_object.alternating_backends", same, nontrivial=lambda x: any(ns[0] != "none" for ns in _noise_slots(x[0])))
+    seqs = []
+    for n in (2, 3, 4):
+        chain = [_signature_noisy(ne, n - ne) for ne in range(1, n + 1)] + [_signature_noisy(0, n)]
+        seqs += [chain, chain[::-1]]
+    for _ in range(200 if thorough else 45):
+        n = int(rng.integers(2, 5))
+        ne = int(rng.integers(0, n + 1))
+        sq = []
+        for _j in range(int(rng.integers(3, 5))):
+            sq.append(_variantize(rng, _rand_circuit(rng, n - ne, ne, int(rng.integers(3, 8)), kinds4, split=rng.random() < 0.25)))
+            if rng.random() < 0.5:
+                ne = int((ne + rng.integers(1, n + 1)) % (n + 1))
+            else:
+                n = int(rng.integers(1, 5))
+                ne = int(rng.integers(0, n + 1))
+        seqs.append(sq)
+    S.map("compile.same_compiler_instance.sequence", seqs,
+          nontrivial=lambda sq: any(_n(a) == _n(b) and a["np"] != b["np"] for a, b in zip(sq, sq[1:])))
+    tw = []
+    for i in range(300 if thorough else 70):
+        n_p, n_e = base_shapes[int(rng.integers(len(base_shapes)))]
+        cj = _rand_circuit(rng, n_p, n_e, int(rng.integers(3, 8)), ["none"])
+        tw.append([cj, _rand_map(rng, ["dep", "loss", "pauli"]), _rand_map(rng, ["dep", "loss", "pauli"])])
+    S.map("assign_noise.twice_same_original", tw)
+    om = []
+    for i in range(250 if thorough else 60):
+        n = int(rng.integers(1, 5))
+        ne = int(rng.integers(0, n + 1))
+        cjs = []
+        for _j in range(3):
+            cjs.append(_rand_circuit(rng, n - ne, ne, int(rng.integers(3, 8)), ["none"]))
+            if rng.random() < 0.5 and n >= 1:
+                ne = int((ne + rng.integers(1, n + 1)) % (n + 1))
+            else:
+                n = int(rng.integers(1, 5))
+                ne = int(rng.integers(0, n + 1))
+        om.append([cjs, _rand_map(rng, ["dep", "loss", "pauli"])])
+    S.map("assign_noise.one_map_many_circuits", om)
+
     S.note("expected trace = product over all noise slots of (1 - loss rate); PSD tolerance -1e-9 (floating point, [N] in DESIGN)")
     S.note("agreement is checked on the full matrices sum_i p_i|t_i><t_i| vs rho and on explicit stabilizer targets")
     return S
+
+
+def _variantize(rng, cj):
+    """rewrite some wrappers / controlled gates of a noisy circuit into their one-noise-object construction"""
+    out = []
+    for op in cj["ops"]:
+        if op[0] == "w" and rng.random() < 0.5:
+            out.append(["w1", op[1], op[2], op[3], op[4][int(rng.integers(len(op[4])))]])
+        elif op[0] in ("cx", "cz") and rng.random() < 0.35:
+            out.append([op[0] + "1"] + list(op[1:5]) + [op[5][int(rng.integers(2))]])
+        else:
+            out.append(op)
+    return dict(cj, ops=out)
+
+
+def _signature_noisy(ne, np_):
+    """a noisy unitary circuit on (ne emitters, np_ photons) that treats every register differently (gate and noise)"""
+    ops = []
+    words = [["H"], ["X", "H"], ["H", "P"], ["PD", "H"]]
+    for i in range(ne):
+        ops.append(["w1", words[i % 4], "e", i, ["dep", 0.1 * (i + 1), i % 2]])
+    for j in range(np_):
+        ops.append(["g", ["H", "Y", "P", "X"][j % 4], "p", j, ["loss", 0.15 * (j + 1), (j + 1) % 2]])
+    if ne and np_:
+        ops.append(["cx", "e", 0, "p", 0, [["dep", 0.2, 1], ["pauli", "X", 1]]])
+        ops.append(["cz1", "e", ne - 1, "p", np_ - 1, ["dep", 0.3, 0]])
+    elif ne + np_ >= 2:
+        t = "e" if ne else "p"
+        ops.append(["cx", t, 0, t, 1, [["dep", 0.2, 1], ["pauli", "Z", 1]]])
+    t, last = ("e", ne - 1) if ne else ("p", np_ - 1)
+    ops.append(["g", "H", t, last, ["pauli", "Y", 0]])
+    return {"np": np_, "ne": ne, "nc": 1, "ops": ops}
 
 
 def _map_has_pauli_1q(mj):
